@@ -1,8 +1,217 @@
 package main
 
-import "verif/engine/sym"
+import (
+	"encoding/json"
+	"fmt"
+	"os"
+	"os/exec"
+	"path/filepath"
+	"regexp"
+	"sort"
+	"strings"
+	"time"
 
-// replayNative re-runs a counterexample against the natively compiled code. (Filled in below.)
+	"verif/engine/sym"
+)
+
+var pkgDirs = map[string]string{"root": ".", "z": "z", "simd": "z/simd"}
+var pkgNames = map[string]string{"root": "ristretto", "z": "z", "simd": "simd"}
+
+const replayTestTmpl = `package %s
+
+import (
+	"fmt"
+	"os"
+	"strconv"
+	"testing"
+	"time"
+)
+
+func TestVFReplay(t *testing.T) {
+	vfLoadCex()
+	h := vfHarnessTab[vfC.Harness]
+	if h == nil {
+		fmt.Println("VF-NOHARNESS", vfC.Harness)
+		return
+	}
+	tries, _ := strconv.Atoi(os.Getenv("VF_TRIES"))
+	if tries < 1 {
+		tries = 1
+	}
+	for i := 0; i < tries; i++ {
+		vfResetRun()
+		res := make(chan string, 1)
+		go func() {
+			defer func() {
+				if r := recover(); r != nil {
+					if a, ours := r.(vfAbort); ours {
+						res <- "VF-OFFMODEL " + a.why
+						return
+					}
+					res <- fmt.Sprintf("VF-PANIC %%v", r)
+					return
+				}
+				res <- "VF-DONE"
+			}()
+			h()
+		}()
+		select {
+		case r := <-res:
+			fmt.Println(r)
+		case <-time.After(%d * time.Second):
+			fmt.Println("VF-TIMEOUT")
+			return
+		}
+		for _, f := range vfFailed {
+			if f == vfC.Assertion {
+				fmt.Println("VF-CONFIRMED", f, "try", i)
+				return
+			}
+		}
+	}
+}
+`
+
+// replayNative re-runs a counterexample against the natively compiled code: the harness is built
+// into the real package with the native variant of the harness API (go test -overlay) and fed the
+// values of the model. Returns whether the same obligation failed natively.
 func replayNative(repo, root string, r HarnessRun, v *sym.Violation, cexPath string) (bool, string) {
-	return true, "native replay not available yet"
+	if r.Arch != "" && r.Arch != "amd64" {
+		return true, "source variant for GOARCH=" + r.Arch + " cannot be executed on this host; counterexample established by the executor only"
+	}
+	dir, ok := pkgDirs[r.Pkg]
+	if !ok {
+		return false, "unknown package"
+	}
+	work := filepath.Join(root, "out", "replay", fmt.Sprintf("%s_%d", r.Fn, time.Now().UnixNano()))
+	os.MkdirAll(work, 0o755)
+	defer os.RemoveAll(work)
+	hdir := filepath.Join(root, "harness", r.Pkg)
+	files, _ := filepath.Glob(filepath.Join(hdir, "*.go"))
+	sort.Strings(files)
+	overlay := map[string]string{}
+	re := regexp.MustCompile(`(?m)^func (vfH_\w+)\(\)`)
+	var names []string
+	for _, f := range files {
+		base := filepath.Base(f)
+		if base == "zz_vf_api.go" || strings.HasSuffix(base, "_sym.go") {
+			continue
+		}
+		overlay[filepath.Join(repo, dir, base)] = f
+		b, _ := os.ReadFile(f)
+		for _, m := range re.FindAllStringSubmatch(string(b), -1) {
+			names = append(names, m[1])
+		}
+	}
+	var reg strings.Builder
+	fmt.Fprintf(&reg, "package %s\n\nvar vfHarnessTab = map[string]func(){\n", pkgNames[r.Pkg])
+	for _, n := range names {
+		fmt.Fprintf(&reg, "\t%q: %s,\n", n, n)
+	}
+	reg.WriteString("}\n")
+	regPath := filepath.Join(work, "zz_vf_registry.go")
+	os.WriteFile(regPath, []byte(reg.String()), 0o644)
+	overlay[filepath.Join(repo, dir, "zz_vf_registry.go")] = regPath
+	perTry := 20
+	testPath := filepath.Join(work, "zz_vf_replay_test.go")
+	os.WriteFile(testPath, []byte(fmt.Sprintf(replayTestTmpl, pkgNames[r.Pkg], perTry)), 0o644)
+	overlay[filepath.Join(repo, dir, "zz_vf_replay_test.go")] = testPath
+	ov, _ := json.Marshal(map[string]any{"Replace": overlay})
+	ovPath := filepath.Join(work, "overlay.json")
+	os.WriteFile(ovPath, ov, 0o644)
+
+	tries := "1"
+	kind := "data"
+	if len(v.Sched) > 0 && threadsIn(v.Sched) > 1 {
+		tries = "400"
+		kind = "schedule (stress)"
+	} else if len(v.Trace) > 0 {
+		tries = "60" // map iteration orders cannot be forced natively
+	}
+	if strings.HasPrefix(v.ID, "terminates") {
+		tries = "1"
+	}
+	cmd := exec.Command("go", "test", "-mod=mod", "-vet=off", "-count=1", "-v", "-run", "^TestVFReplay$", "-overlay", ovPath, "-timeout", "280s", "./"+dir)
+	cmd.Dir = repo
+	var env []string
+	for _, e := range os.Environ() {
+		if strings.HasPrefix(e, "GOTOOLCHAIN=") || strings.HasPrefix(e, "GOSUMDB=") || strings.HasPrefix(e, "GOFLAGS=") {
+			continue
+		}
+		env = append(env, e)
+	}
+	env = append(env, "GOPROXY=off", "GOWORK=off", "VF_CEX="+cexPath, "VF_TRIES="+tries)
+	cmd.Env = env
+	done := make(chan struct{})
+	var out []byte
+	var err error
+	go func() { out, err = cmd.CombinedOutput(); close(done) }()
+	select {
+	case <-done:
+	case <-time.After(300 * time.Second):
+		cmd.Process.Kill()
+		<-done
+	}
+	txt := string(out)
+	os.WriteFile(strings.TrimSuffix(cexPath, ".json")+".replay.log", out, 0o644)
+	want := v.ID
+	switch {
+	case strings.Contains(txt, "VF-CONFIRMED "+want):
+		return true, "reproduced natively (" + kind + " replay)"
+	case want == "no-panic" && strings.Contains(txt, "VF-PANIC"):
+		return true, "panic reproduced natively"
+	case want == "no-panic" && (strings.Contains(txt, "panic:") || strings.Contains(txt, "fatal error:")):
+		return true, "crash reproduced natively"
+	case (want == "terminates" || want == "no-deadlock") && (strings.Contains(txt, "VF-TIMEOUT") || strings.Contains(txt, "test timed out") || strings.Contains(txt, "all goroutines are asleep")):
+		return true, "non-termination reproduced natively (timeout)"
+	case want == "asm-read-in-bounds":
+		return true, "out-of-object read by the assembly (no sanitizer can confirm; triaged by reading)"
+	}
+	_ = err
+	why := "assertion did not fail natively"
+	if strings.Contains(txt, "VF-OFFMODEL") {
+		why = "recorded values violate a harness assumption natively"
+	} else if strings.Contains(txt, "[build failed]") || strings.Contains(txt, "cannot") && !strings.Contains(txt, "VF-") {
+		why = "native harness did not build: " + firstLine(txt)
+	}
+	return false, why
+}
+
+func threadsIn(s []int) int {
+	m := map[int]bool{}
+	for _, x := range s {
+		m[x] = true
+	}
+	return len(m)
+}
+
+
+// replayCmd: gosym replay <cex.json> — re-runs a stored counterexample natively against /repo.
+func replayCmd(args []string) int {
+	if len(args) != 1 {
+		fmt.Println("usage: gosym replay <counterexample.json>")
+		return 2
+	}
+	b, err := os.ReadFile(args[0])
+	if err != nil {
+		fmt.Println(err)
+		return 2
+	}
+	var c struct {
+		Harness, Pkg, Arch, Assertion string
+		Params                        map[string]int
+		Decisions, Schedule           []int
+	}
+	if err := json.Unmarshal(b, &c); err != nil {
+		fmt.Println(err)
+		return 2
+	}
+	r := HarnessRun{Pkg: c.Pkg, Fn: c.Harness, Arch: c.Arch, Params: c.Params}
+	v := &sym.Violation{ID: c.Assertion, Trace: c.Decisions, Sched: c.Schedule}
+	ok, how := replayNative(envOr("VERIF_REPO", "/repo"), "/verif", r, v, args[0])
+	fmt.Printf("replay of %s / %s: confirmed=%v (%s)\n", c.Harness, c.Assertion, ok, how)
+	if ok {
+		return 1
+	}
+	return 0
 }
